@@ -135,6 +135,11 @@ func comparisons(tier string) []Expr {
 	for _, p := range paths {
 		out = append(out, Expr{Text: p.Text + " =~ /x/", Ast: fmt.Sprintf("(regex %s \"x\")", p.Ast), RootOp: p.Root, Kind: "regex"})
 	}
+	// escapes inside the regular expression: an escaped slash, and an escaped backslash right before the closing slash
+	out = append(out,
+		Expr{Text: `@.a =~ /x\\/`, Ast: `(regex (cur (name a)) "x\\\\")`, Kind: "regex"},
+		Expr{Text: `@.a =~ /a\/b/`, Ast: `(regex (cur (name a)) "a\\/b")`, Kind: "regex"},
+		Expr{Text: `@.a=~/\\/`, Ast: `(regex (cur (name a)) "\\\\")`, Kind: "regex"})
 	return out
 }
 
@@ -295,6 +300,7 @@ func funcSteps() []Step {
 		{Text: ".aggfail()", Ast: "(agg aggfail)", Kind: "agg", Funcs: true},
 		{Text: ".g()", Ast: "(func g)", Kind: "func", Funcs: true},
 		{Text: ".agh()", Ast: "(agg agh)", Kind: "agg", Funcs: true},
+		{Text: ".failrt()", Ast: "(func failrt)", Kind: "func", Funcs: true},
 	}
 }
 
@@ -332,8 +338,9 @@ func mkPath(steps ...Step) Path {
 	}
 	for _, s := range steps {
 		if s.Kind == "agg" {
-			// the values handed to an aggregate may themselves be arrays: one more document level
-			p.Depth++
+			// the values handed to an aggregate may themselves be arrays, and a single-valued
+			// path selecting an array hands over its elements, which may be arrays again
+			p.Depth += 2
 			break
 		}
 	}
@@ -393,18 +400,25 @@ func stepPaths(tier string, rng *rand.Rand) []Path {
 }
 
 // funcPaths: every step kind (and 2-step kind sequence) followed by 1..3 functions.
-func funcPaths(tier string, rng *rand.Rand) []Path {
-	steps := baseSteps(tier)
-	fns := funcSteps()
+// funcPathsCore: every function alone (`$.f()`) and after every step of the alphabet.
+func funcPathsCore(tier string) []Path {
 	var out []Path
+	fns := funcSteps()
 	for _, f := range fns {
 		out = append(out, mkPath(f))
 	}
-	for _, a := range steps {
+	for _, a := range baseSteps(tier) {
 		for _, f := range fns {
 			out = append(out, mkPath(a, f))
 		}
 	}
+	return out
+}
+
+func funcPaths(tier string, rng *rand.Rand) []Path {
+	steps := baseSteps(tier)
+	fns := funcSteps()
+	out := funcPathsCore(tier)
 	for _, a := range steps {
 		for i := 0; i < 3; i++ {
 			f1, f2 := fns[rng.Intn(len(fns))], fns[rng.Intn(len(fns))]
@@ -424,7 +438,12 @@ func funcPaths(tier string, rng *rand.Rand) []Path {
 		}
 		out = append(out, mkPath(seq...))
 	}
-	// functions inside filter operands
+	return append(out, funcFilterPaths()...)
+}
+
+// funcFilterPaths: functions inside filter operands.
+func funcFilterPaths() []Path {
+	var out []Path
 	inFilter := []Expr{
 		{Text: "@.f() == 7.5e1", Ast: "(cmp == (cur (func f)) (numh lit))", Holes: "7.5e1=lit:f", Funcs: true},
 		{Text: "@.a.f()", Ast: "(exists (cur (name a) (func f)))", Funcs: true},
@@ -432,6 +451,11 @@ func funcPaths(tier string, rng *rand.Rand) []Path {
 		{Text: "@.fail()", Ast: "(exists (cur (func fail)))", Funcs: true},
 		{Text: "$.*.agg().agh() == @.a", Ast: "(cmp == (root (wild) (agg agg) (agg agh)) (cur (name a)))", Funcs: true, RootOp: true},
 		{Text: "@.agg().f() != 'x'", Ast: "(cmp != (cur (agg agg) (func f)) (str x))", Funcs: true},
+		{Text: "@.*.cnt() > 1", Ast: "(cmp > (cur (wild) (agg cnt)) (num 1))", Funcs: true},
+		{Text: "@.cnt() == 1", Ast: "(cmp == (cur (agg cnt)) (num 1))", Funcs: true},
+		{Text: "$.*.cnt() >= @.a", Ast: "(cmp >= (root (wild) (agg cnt)) (cur (name a)))", Funcs: true, RootOp: true},
+		{Text: "@.a.cnt() != 2", Ast: "(cmp != (cur (name a) (agg cnt)) (num 2))", Funcs: true},
+		{Text: "@.failrt()", Ast: "(exists (cur (func failrt)))", Funcs: true},
 	}
 	for _, e := range inFilter {
 		out = append(out, mkPath(filterStep(e)), mkPath(st(".a", "(name a)", "name", false), filterStep(e)))
@@ -485,6 +509,10 @@ func nestedFilterPaths() []Path {
 		{Text: "@[?(@.a == 7.5e1)]", Ast: "(exists (cur (filter (cmp == (cur (name a)) (numh lit)))))", Holes: "7.5e1=lit:f"},
 		{Text: "@.a[?(@[?(@.a)])]", Ast: "(exists (cur (name a) (filter (exists (cur (filter (exists (cur (name a)))))))))"},
 		{Text: "$[?(@.a)] && @.b", Ast: "(and (exists (root (filter (exists (cur (name a)))))) (exists (cur (name b))))", RootOp: true},
+		// (not nested, but fixed members of the same corpora) escapes inside a regular expression
+		{Text: `@.a =~ /x\\/`, Ast: `(regex (cur (name a)) "x\\\\")`},
+		{Text: `@.a =~ /a\/b/`, Ast: `(regex (cur (name a)) "a\\/b")`},
+		{Text: `@.a=~/\\/`, Ast: `(regex (cur (name a)) "\\\\")`},
 	} {
 		out = append(out, mkPath(filterStep(e)), mkPath(filterStep(e), a), mkPath(a, filterStep(e)))
 	}
@@ -516,5 +544,65 @@ func dedupPaths(ps []Path) []Path {
 		seen[p.Text] = true
 		out = append(out, p)
 	}
+	return out
+}
+
+// unionPaths: every bracket made of one or two subscripts of a small alphabet
+// of indexes, slices (touching, overlapping, reversed) and `*`, written in both
+// orders, at the root (`$[x,y]`) and below a name (`$.a[x,y]`), plus a few
+// three-subscript brackets. They are evaluated on arrays of 0..5 elements
+// (longArrayJobs): order as written, capacity/aliasing of the source array,
+// merging of neighbouring subscripts.
+func unionPaths() []Path {
+	type sub struct{ text, ast string }
+	subs := []sub{
+		{"0", "(i 0)"}, {"2", "(i 2)"}, {"-1", "(i -1)"}, {"4", "(i 4)"},
+		{"0:2", "(s 0 2 _)"}, {"1:3", "(s 1 3 _)"}, {"2:4", "(s 2 4 _)"}, {"3:", "(s 3 _ _)"},
+		{"::-1", "(s _ _ -1)"}, {"1::2", "(s 1 _ 2)"}, {"3:0:-1", "(s 3 0 -1)"}, {"*", "*"},
+	}
+	a := st(".a", "(name a)", "name", false)
+	var out []Path
+	mk := func(text, ast string, n int) {
+		s := Step{Text: "[" + text + "]", Ast: "(union " + ast + ")", Kind: "union", Multi: true, Depth: 1}
+		if n == 1 && !strings.ContainsAny(text, ":*") {
+			s.Kind, s.Multi = "index", false
+		}
+		if text == "*" {
+			s = st("[*]", "(wild)", "wild", true)
+		}
+		out = append(out, mkPath(s), mkPath(a, s))
+	}
+	for _, x := range subs {
+		mk(x.text, x.ast, 1)
+		for _, y := range subs {
+			if x.text == "*" && y.text == "*" {
+				continue // `[*,*]` is a multi-identifier, in the general alphabet
+			}
+			mk(x.text+","+y.text, x.ast+" "+y.ast, 2)
+		}
+	}
+	mk("2:4,0:2,4", "(s 2 4 _) (s 0 2 _) (i 4)", 3)
+	mk("0:2,2:4,0", "(s 0 2 _) (s 2 4 _) (i 0)", 3)
+	mk("3:5,1:3,0", "(s 3 5 _) (s 1 3 _) (i 0)", 3)
+	mk("0,1,2", "(i 0) (i 1) (i 2)", 3)
+	mk("*,0:2,-1", "* (s 0 2 _) (i -1)", 3)
+	return out
+}
+
+// returnedArgumentPaths: paths ending in the aggregate `aggid`, which returns
+// the argument list it was handed.
+func returnedArgumentPaths() []Path {
+	id := Step{Text: ".aggid()", Ast: "(agg aggid)", Kind: "agg", Funcs: true}
+	var out []Path
+	for _, a := range []Step{
+		st(".*", "(wild)", "wild", true), st("[*]", "(wild)", "wild", true), st(".a", "(name a)", "name", false),
+		st("[0:2]", "(union (s 0 2 _))", "slice", true), st("['a','b']", "(multi (n a) (n b))", "multi", true),
+		{Text: "..a", Ast: "(desc (name a))", Kind: "desc", Multi: true, Depth: 2},
+		filterStep(Expr{Text: "@.a", Ast: "(exists (cur (name a)))"}),
+	} {
+		out = append(out, mkPath(a, id))
+	}
+	out = append(out, mkPath(id), mkPath(st(".*", "(wild)", "wild", true), id, id),
+		mkPath(st(".*", "(wild)", "wild", true), Step{Text: ".f()", Ast: "(func f)", Kind: "func", Funcs: true}, id))
 	return out
 }
